@@ -205,9 +205,9 @@ def _check_sampler(res, f, name, fam, spec, ps, p1, p2):
         if seeded:
             res.violated("R-SEED", f, "signature", "%s documents seeding but has no seed parameter" % name)
         return
-    for seed in (None, 12345):
+    for seed in (None, 12345, 0):
         for n in (1, 3):
-            tag = "seed=%s,n=%d" % ("None" if seed is None else "int", n)
+            tag = "seed=%s,n=%d" % ("None" if seed is None else ("0" if seed == 0 else "int"), n)
             try:
                 kind, val = W.run_scenario(f.node, {"seed": seed, ps[0]: n})
             except A.Undecided as e:
